@@ -699,11 +699,12 @@ def read_rules(text):
                     s0 = alts[-1][-1]
                     alts[-1][-1] = (s0[0], t[0], s0[2])
             elif t == "[":
+                sepname = toks[i + 1] if i + 1 < n and toks[i + 1] != "]" else True
                 while i < n and toks[i] != "]":
                     i += 1
                 if alts[-1]:
                     s0 = alts[-1][-1]
-                    alts[-1][-1] = (s0[0], s0[1], True)
+                    alts[-1][-1] = (s0[0], s0[1], sepname)
             elif t in ("(", ")", ",", ":"):
                 pass
             elif t != "EMPTY":
@@ -724,7 +725,7 @@ def read_rules(text):
                 base = sname
                 one, zero, opt = base + "1", base + "0", base + "Opt"
                 if op in ("+", "*"):
-                    out.setdefault(one, [[one, base], [base]])
+                    out.setdefault(one, [[one, base], [base]] if not sep else [[one, sep, base], [base]])
                 if op == "*":
                     out.setdefault(zero, [[one], []])
                 if op == "?":
@@ -734,6 +735,15 @@ def read_rules(text):
         out.setdefault(name, [])
         out[name] = out[name] + na if name in rules else na
     return out
+
+
+def string_terminals(text):
+    """Names of the terminals declared with a string recogniser (they carry no content)."""
+    import re
+    parts = re.split(r"\bterminals\b", re.sub(r"//[^\n]*", " ", re.sub(r"/\*.*?\*/", " ", text, flags=re.S)), maxsplit=1)
+    if len(parts) < 2:
+        return set()
+    return set(re.findall(r"([A-Za-z_][\w.]*)\s*:\s*(?:'|\")", parts[1]))
 
 
 def nullable_of(rules):
